@@ -7,7 +7,6 @@ exactly the edges it can execute."""
 import concurrent.futures
 import json
 import os
-import shutil
 
 import vf
 
@@ -53,8 +52,10 @@ PROPS = ["QueriesChangeNothing", "StableWithoutWrites", "DestroyedReadsNothing",
          "TouchWritesOnlyItsSlots", "UntouchedChangesNothing", "OtherAddressesUnaffected"]
 
 
-def L(world="populated", commits=False, inserts=False, protocol=False, ccode=True, has=True):
-    return dict(world=world, commits=commits, inserts=inserts, protocol=protocol, ccode=ccode, has=has)
+def L(world="populated", commits=False, inserts=False, protocol=False, ccode=True, has=True, thin=False):
+    """thin: a forwarding variant of a primary layer; in the thorough tier it replays the histories
+    one operation shorter than the primary layers do (i.e. what the primary layers get in quick)."""
+    return dict(world=world, commits=commits, inserts=inserts, protocol=protocol, ccode=ccode, has=has, thin=thin)
 
 
 def family(lname):
@@ -69,21 +70,23 @@ def family(lname):
 # layer name (harness `layer=`) -> what it can replay
 LAYERS = {
     # adapters: queries only
-    "ref": L(), "ref_asref": L(), "mutref": L(), "boxdyn": L(), "wrapref": L(), "wrap_arc": L(), "wrap_borrow": L(),
+    "ref": L(), "ref_asref": L(thin=True), "mutref": L(), "boxdyn": L(), "wrapref": L(), "wrap_arc": L(thin=True),
+    "wrap_borrow": L(thin=True),
     # DatabaseComponents: the State/StateRef component traits have no has-storage query
-    "components": L(has=False), "components_ref": L(has=False),
+    "components": L(has=False), "components_ref": L(has=False, thin=True),
     # CacheDB: commit + the three direct writers; tolerates storage()/commit of unloaded accounts
     "cachedb": L(commits=True, inserts=True), "cachedb_ref": L(commits=True, inserts=True),
-    "cachedb_mutref": L(commits=True, inserts=True), "cachedb_wrap": L(commits=True, inserts=True),
-    "cachedb_boxed": L(commits=True, inserts=True),
-    "cachedb2": L(commits=True, inserts=True), "cachedb2_ref": L(commits=True, inserts=True),
+    "cachedb_mutref": L(commits=True, inserts=True, thin=True), "cachedb_wrap": L(commits=True, inserts=True, thin=True),
+    "cachedb_boxed": L(commits=True, inserts=True, thin=True),
+    "cachedb2": L(commits=True, inserts=True), "cachedb2_ref": L(commits=True, inserts=True, thin=True),
     # State: commit; documented caller protocol; committed code is served through basic().code
     "state": L(commits=True, protocol=True, ccode=False), "state_bundle": L(commits=True, protocol=True, ccode=False),
-    "state_wrapref": L(commits=True, protocol=True, ccode=False), "state_boxed": L(commits=True, protocol=True, ccode=False),
-    "state_cachedb": L(commits=True, protocol=True, ccode=False),
+    "state_wrapref": L(commits=True, protocol=True, ccode=False),
+    "state_boxed": L(commits=True, protocol=True, ccode=False, thin=True),
+    "state_cachedb": L(commits=True, protocol=True, ccode=False, thin=True),
     # the empty world
-    "emptydb": L("empty"), "emptydb_ref": L("empty"),
-    "inmemorydb": L("empty", commits=True, inserts=True), "inmemorydb_ref": L("empty", commits=True, inserts=True),
+    "emptydb": L("empty"), "emptydb_ref": L("empty", thin=True),
+    "inmemorydb": L("empty", commits=True, inserts=True), "inmemorydb_ref": L("empty", commits=True, inserts=True, thin=True),
     "state_empty": L("empty", commits=True, protocol=True, ccode=False),
 }
 
@@ -102,9 +105,9 @@ def models(quick):
             "empty": dict(World='"empty"', Focus="{{3}}", BlockNums="{1, 258}", Rich="TRUE", MaxHist=3),
         }
     return {
-        "single": dict(World='"populated"', Focus=one, BlockNums="{2, 600}", Rich="TRUE", MaxHist=4),
+        "single": dict(World='"populated"', Focus=one, BlockNums="{600}", Rich="TRUE", MaxHist=4),
         "deep": dict(World='"populated"', Focus=one, BlockNums="{}", Rich="FALSE", MaxHist=5),
-        "pair": dict(World='"populated"', Focus="{{1, 3}, {2, 4}}", BlockNums="{600}", Rich="FALSE", MaxHist=4),
+        "pair": dict(World='"populated"', Focus="{{1, 3}}", BlockNums="{}", Rich="FALSE", MaxHist=4),
         "blocks": dict(World='"populated"', Focus="{{}}", BlockNums=ALL_BLOCKS, Rich="FALSE", MaxHist=5),
         "empty": dict(World='"empty"', Focus="{{3}}", BlockNums="{1, 258}", Rich="TRUE", MaxHist=4),
     }
@@ -122,18 +125,20 @@ class _Sub:
         self.wall = run.wall if first else 0.0
 
 
-CAPS = ("commits", "inserts", "protocol", "ccode", "has")
+CAPS = ("commits", "inserts", "protocol", "ccode", "has", "thin")
 
 
-def accepts(caps, e):
-    commits, inserts, protocol, ccode, has = caps
+def accepts(caps, e, thin_len):
+    commits, inserts, protocol, ccode, has, thin = caps
     c = e["cfg"]
+    if thin and len(e["hist"]) >= thin_len:
+        return False
     return not ((c["commits"] and not commits) or (c["inserts"] and not inserts)
                 or (protocol and not c["conf"]) or (c["ccode"] and not ccode)
                 or (e["op"]["op"] == "has_storage" and not has))
 
 
-def split(ctx, mname, path, classes):
+def split(ctx, mname, path, classes, thin_len):
     """One pass over the edge dump: for every capability class the edges a layer of that class can
     execute.  Returns class -> (file, count, samples, ops)."""
     out = {c: [open(ctx.path("replay", "%s.class%d.ndjson" % (mname, i)), "w"), 0, [], set()]
@@ -142,7 +147,7 @@ def split(ctx, mname, path, classes):
         for line in f:
             e = json.loads(line)
             for c, o in out.items():
-                if accepts(c, e):
+                if accepts(c, e, thin_len):
                     o[0].write(line)
                     o[1] += 1
                     o[3].add(e["op"]["op"])
@@ -159,18 +164,13 @@ def run(ctx, pid):
     res.rule = ("every (state, operation) edge of DbLayers.tla reachable within MaxHist operations (state = committed "
                 "overlay + last answer per query + order of block numbers asked + protocol conformance), replayed "
                 "through every layer able to execute it; distinct = distinct (edge, layer) pairs")
-    vf.cargo_build("dblayers")
-    # private copy of the freshly linked binary: `<bin>-default` in target/ may be a hard link shared
-    # with scratch copies made by bin/mutant, and is rewritten in place by other runs
-    binary = ctx.path("bin", "dblayers")
-    shutil.copyfile(os.path.join(vf.HARNESS, "target", "debug", "dblayers"), binary)
-    os.chmod(binary, 0o755)
+    binary = vf.cargo_build("dblayers")
     only = [x for x in os.environ.get("VERIF_DBLAYERS_ONLY", "").split(",") if x]
     jobs = []
     total_states = total_edges = 0
     for mname, consts in models(ctx.quick).items():
         run_ = vf.tlc(ctx, "DbLayers", vf.cfg(consts, invariants=INV, properties=PROPS), name="dbl_" + mname,
-                      workers=6, coverage=False, timeout=1500, stream=("EDGE",))
+                      workers=4, coverage=False, timeout=1500, stream=("EDGE",))
         n = run_.counts.get("EDGE", 0)
         if not n:
             raise vf.ToolError("vacuous: no edges from model %s" % mname)
@@ -179,7 +179,8 @@ def run(ctx, pid):
         world = consts["World"].strip('"')
         mine = {l: tuple(v[c] for c in CAPS) for l, v in LAYERS.items()
                 if v["world"] == world and (not only or l in only)}
-        parts = split(ctx, mname, run_.files["EDGE"], sorted(set(mine.values())))
+        thin_len = consts["MaxHist"] if ctx.quick else consts["MaxHist"] - 1
+        parts = split(ctx, mname, run_.files["EDGE"], sorted(set(mine.values())), thin_len)
         first = True
         for lname, caps in mine.items():
             path, cnt, samples, ops = parts[caps]
